@@ -1,7 +1,7 @@
 """C11 - eventually-properties: never a false alarm (DESIGN.md section 4, C11)."""
 import c03
 from checkers import CB, Spawn, noref
-from mir import AnchorMissing
+from mir import AnchorMissing, V
 
 LEVEL_TEXT = (
     'Static rules over the eventually-bit bookkeeping of all four check loops: the "no false alarm" '
@@ -20,6 +20,11 @@ def enumerate_index_of_properties(b, v):
     """True if value v is field 0 of an item produced by Iterator::next of an
     Enumerate<slice::Iter<Property>>."""
     v = noref(v)
+    if v.kind == 'local':
+        # the loop item may arrive through a join (the `Some(item)` an expanded `filter` hands on)
+        from taint import vals_of
+        vs = vals_of(b, v)
+        return bool(vs) and all(x.kind != 'local' and enumerate_index_of_properties(b, x) for x in vs)
     if v.kind != 'call':
         return False
     c = b.call_at(v.key)
@@ -28,7 +33,28 @@ def enumerate_index_of_properties(b, v):
     if not (c.targs and 'Enumerate' in c.targs[0] and 'Property<' in c.targs[0]):
         return False
     fs = v.fields()
-    return fs == ('.0', '.0')
+    return fs == ('.0', '.0') and enumerates_properties_directly(b, c)
+
+
+def enumerates_properties_directly(b, nxt):
+    """The Enumerate that `nxt` pulls from counts the elements of the properties() slice itself: nothing
+    that drops, skips or reorders elements (filter, skip, rev, a collected subset, ...) sits between the slice
+    and `enumerate()`, so the index is the property's position in Model::properties() - the numbering every
+    other site (initial bits, terminal report) uses."""
+    SRC = ('IntoIterator::into_iter', 'Deref::deref')
+    v = noref(b.trace(b.val(nxt.args[0]), SRC))
+    if v.kind == 'local' and not v.projs:
+        ds = [d for d in b.defs.get(v.key, []) if d[1] == 'call' or not d[2]['lhs']['p']]
+        if len(ds) == 1 and ds[0][1] == 'call':
+            v = noref(b.trace(V('call', ds[0][0]), SRC))
+    e = b.call_at(v.key) if v.kind == 'call' and not v.fields() else None
+    if e is None or not e.is_('Iterator::enumerate'):
+        return False
+    src = noref(b.trace(b.val(e.args[0]), SRC + ('slice::iter', 'Vec::iter', 'Arc::new', 'Clone::clone')))
+    if src.kind == 'arg':
+        return True
+    sc = b.call_at(src.key) if src.kind == 'call' and not src.fields() else None
+    return sc is not None and sc.is_('Model::properties')
 
 
 def r1_bits(ctx, F, rule='C11-R1'):
@@ -100,7 +126,8 @@ def r1_bits(ctx, F, rule='C11-R1'):
                 org = origins(init_body, el)
                 ok1 = bool(org) and all(isinstance(o, tuple) and o[0] == 'proj' and o[1].is_('Iterator::next') and
                                         o[1].targs and 'Enumerate' in o[1].targs[0] and 'Property<' in o[1].targs[0] and
-                                        o[2] == ('Some', '0', '0') for o in org)
+                                        o[2] == ('Some', '0', '0') and enumerates_properties_directly(init_body, o[1])
+                                        for o in org)
                 ok2 = False
                 for sw in init_body.switches:
                     if sw.kind == 'variant' and sw.on.fields() and sw.on.fields()[-1] == '.expectation':
